@@ -462,5 +462,5 @@ def _count(val: Any) -> Optional[int]:
         return None
     try:
         return int(val)
-    except ValueError:
+    except (ValueError, TypeError, OverflowError):
         return None
